@@ -38,6 +38,13 @@ claimed["C09"] = dict(
    note="Interleaving granularity is the seam calls. Index bookkeeping between reduced and full vectors is exercised by the same oracle but the input space is only sampled.",
    technique="deterministic simulation: seeded thread interleavings at the global's accessors vs register model + hand-reduced reference")
 
+claimed["C05"] = dict(
+   level="exploration",
+   text="Seeded search over thread interleavings and solve histories. (a) 2-3 solver programs (New, solve, update, re-solve, cut by max_iter or by a per-thread simulated clock, some printing to faulty streams) run as simulated threads under the baton scheduler together with threads storing to the infinity bound; every solve result, update return value and printed byte must equal, bit for bit, the same program run alone. (b) the same solver solved twice, and solved after 1-2 interrupted solves, must equal an uninterrupted first solve bit for bit. (c) every run of every check is re-executed in another worker process (5% sample) and the event-log hashes compared. Only the schedule, re-solve and reproducibility clauses are claimed; the formulation-equivalence clauses (permutations, cone splitting, objective scaling, backend) are metamorphic relations between pure functions of the input and are not decided by this technique.",
+   design_ref="DESIGN.md §4 C05, §2.5",
+   note="Hidden shared state is observable only if it survives between two seam calls (clock reads, sink calls, infinity accessors); faer/rayon thread count is not simulated.",
+   technique="deterministic simulation: baton-scheduled thread interleavings, bitwise comparison with solo execution")
+
 na = {
  "C01": "validity of a Solved verdict is a pure function of (data, settings); no clock, I/O, schedule or fault participates, so a simulator has nothing to control",
  "C02": "validity of infeasibility certificates is a pure function of the input; the (tau,kappa) observer it needs is instrumentation, not a nondeterminism seam",
